@@ -35,6 +35,11 @@ EXTRA = [
     'select database()', 'select current_date, current_user from t', 'select a from t where b in (select c from u)',
     'select a from t where b in c', 'select max(a, b, c) from t', 'select - a, not b, -(-1) from t', 'select a as `x y` from t',
     'select * from int1 (select 1) as n', 'select last from t where a > last',
+    # rows shorter / longer than the column list, rows of different lengths
+    'insert into t (a, b, c) values (1, 2)', 'insert into t (a, b) values (1), (2, 3)', 'insert into t (a) values (1, 2)',
+    'insert into s.t (a, b, c, d) values (1), (2), (3)', "insert into t (a, b) values ('x')",
+    'update t set a = 1, b = a + 1', 'delete from t where a in (1, 2) and b is null', 'insert into t (a) values (null), (1), (?)',
+    'select a from t union all select b from u union select c from v', 'select * from t where a = any (select 1)' if False else 'select coalesce(a, b, 1) from t',
 ]
 
 
